@@ -154,6 +154,20 @@ def cases(g):
     yield 'op.~', lambda np: ~np.array(A)
     yield 'op.neg', lambda np: -np.array(A)
     yield 'op.&', lambda np: np.array(g.nested(sh, 'b')) & np.array(g.nested(sh, 'b'))
+    yield 'minimum', lambda np: np.minimum(np.array(A), B)
+    yield 'maximum', lambda np: np.maximum(np.array(A), np.array(B))
+    yield 'clip', lambda np: np.clip(np.array(A), -1, 2)
+    yield 'mod', lambda np: np.mod(np.array(A, dtype=int) if kind != 'f' else np.array([5, -3, 4]), 3)
+    yield 'sign', lambda np: np.sign(np.array(A, dtype=float))
+    yield 'count_nonzero', lambda np: np.count_nonzero(np.array(A), axis=axn)
+    yield 'flip', lambda np: np.flip(np.array(A), axis=axn)
+    yield 'expand_dims', lambda np: np.expand_dims(np.array(A), ax)
+    yield 'moveaxis', lambda np: np.moveaxis(np.array(A), ax, 0)
+    yield 'broadcast_to', lambda np: np.broadcast_to(np.array(A)[..., :1], sh)
+    yield 'append', lambda np: np.append(np.array(A), [1, 2])
+    yield 'insert', lambda np: np.insert(np.array([1, 2, 3]), r.choice([0, 1, 3, -1, [0, 2], [1, 1]]), 9)
+    yield 'delete', lambda np: np.delete(np.array([1, 2, 3]), r.choice([0, 2, -1, [0, 2]]))
+    yield 'issubdtype', lambda np: [np.issubdtype(np.array(A).dtype, t) for t in (np.integer, np.floating, np.number, np.bool_)]
     yield 'abs', lambda np: np.abs(np.array(A))
     yield 'isnan', lambda np: np.isnan(np.array(A))
     yield 'ceil', lambda np: np.ceil(np.array(A, dtype=float))
